@@ -132,4 +132,39 @@ PROPS = {
                      "unexported tagged fields and maps with a named key type are outside the supported universe (reflect would panic on Set / SetMapIndex)"],
         "assumptions": ["field values have the shapes their Go types prescribe (Typed)"],
     },
+    "C01": {
+        "required_theorems": ["c01_read_is_newest", "c01_one_row_per_identity", "c01_order_batching_irrelevant", "c01_stale_is_noop", "c01_nodePoints_rows", "gen_normalize_pinned"],
+        "n": {"quick": 1500, "thorough": 20000},
+        "thorough_seeds": 3,
+        "rule": "2-11 points over collision alphabets (types '', a, ab, 0, tombstone, value, description; keys '', 0, b, 00, 1), distinct timestamps per identity incl. 1, -1, MaxInt64, "
+                "texts incl. NUL / non-UTF-8, values incl. +-0, +-Inf, subnormal, 2^53+1, tombstone counts incl. negative/huge, origins, data; exact re-deliveries; random permutation and "
+                "partition into batches; delivered to a node, the root node or an edge of a fresh SQLite store through the real nodePoints/edgePoints; "
+                "observation = raw table rows + hashes; oracle = last-write-wins per identity computed from the deliveries alone; distinct = distinct case line",
+        "trusted": ["modernc SQLite: row storage fidelity (TEXT/BLOB/INT/REAL), atomic commit, rollback (parameter; every case runs on a real database file)", "hash/crc32 IEEE table implementation (modelled bit-serially; equality exercised through the stored hashes of every case)"],
+        "modelled": ["store/sqlite.go nodePoints, edgePoints, updateHash/updateHashHelper/updateHashEdge, isAncestor, normalizePoints and data.Points.Collapse, data.Point.CRC, data.NodeEdge.CalcHash modelled by hand (Siot/Model/Store.lean, Crc32.lean)", "time.Now() for zero timestamps is not modelled (generated points carry explicit non-zero times)", "the model's upstream walks use fuel 2^|edges|, proved never to be exhausted on reachable (acyclic) states; the Go recursion has no bound"],
+        "assumptions": ["Admissible: two different delivered points of one identity never share a timestamp", "no NaN values (refused, C05)"],
+    },
+    "C03": {
+        "required_theorems": ["c03_step_preserves", "c03_reachable", "c03_verify_clean", "c03_crc_depends_exactly", "edgePoints_inv", "gen_store_pinned"],
+        "n": {"quick": 1500, "thorough": 20000},
+        "thorough_seeds": 3,
+        "rule": "random DAG histories of 3-12 steps over 6 node ids: nodes created points-first or edge-first, node points anywhere, edge points incl. delete/undelete, "
+                "mirrors (may close diamonds; cycle attempts are refused), attaching above populated subtrees, two-point batches, stale timestamps; "
+                "observation = every edge row (up, down, type, hash) and all point rows; oracle = from-scratch Merkle recomputation over the implementation's rows; distinct = distinct case line",
+        "trusted": ["modernc SQLite: row storage fidelity (TEXT/BLOB/INT/REAL), atomic commit, rollback (parameter; every case runs on a real database file)", "hash/crc32 IEEE table implementation (modelled bit-serially; equality exercised through the stored hashes of every case)"],
+        "modelled": ["store/sqlite.go nodePoints, edgePoints, updateHash/updateHashHelper/updateHashEdge, isAncestor, normalizePoints and data.Points.Collapse, data.Point.CRC, data.NodeEdge.CalcHash modelled by hand (Siot/Model/Store.lean, Crc32.lean)", "time.Now() for zero timestamps is not modelled (generated points carry explicit non-zero times)", "the model's upstream walks use fuel 2^|edges|, proved never to be exhausted on reachable (acyclic) states; the Go recursion has no bound"],
+        "assumptions": ["XOR Merkle hashes: a change below an ancestor reached by an even number of paths cancels at that ancestor (a property of the documented definition, see DESIGN)"],
+    },
+    "C05": {
+        "required_theorems": ["c05_refuses_self", "c05_refuses_root_delete", "c05_refuses_nan_node", "c05_refuses_nan_edge", "c05_refuses_cycle",
+                              "c05_refused_leaves_no_trace", "c05_dag_invariant", "c05_walks_complete", "gen_facts_pinned"],
+        "n": {"quick": 1000, "thorough": 15000},
+        "thorough_seeds": 3,
+        "rule": "chain R->a->b->c plus d under a (inner edge sometimes tombstoned), then 2-6 of: self edge, root tombstone (values 1, 2, 0.5; parent '' or root), NaN hidden inside an otherwise good "
+                "node-point or edge-point batch, cycle-closing edges (a under c/b/d, R under c/d, b under c), new edge without node type, legal mirrors, good follow-up writes; "
+                "oracle = every must-refuse request is refused, the final rows equal what the accepted requests alone produce, hashes consistent; distinct = distinct case line",
+        "trusted": ["modernc SQLite: row storage fidelity (TEXT/BLOB/INT/REAL), atomic commit, rollback (parameter; every case runs on a real database file)", "hash/crc32 IEEE table implementation (modelled bit-serially; equality exercised through the stored hashes of every case)"],
+        "modelled": ["store/sqlite.go nodePoints, edgePoints, updateHash/updateHashHelper/updateHashEdge, isAncestor, normalizePoints and data.Points.Collapse, data.Point.CRC, data.NodeEdge.CalcHash modelled by hand (Siot/Model/Store.lean, Crc32.lean)", "time.Now() for zero timestamps is not modelled (generated points carry explicit non-zero times)", "the model's upstream walks use fuel 2^|edges|, proved never to be exhausted on reachable (acyclic) states; the Go recursion has no bound", "bus level (reply text, up.* stream, follow-up latency) is covered by the handler facts gen_facts_pinned and, when the bus harness is available, by C06/C08 runs"],
+        "assumptions": [],
+    },
 }
